@@ -198,9 +198,9 @@ Print Assumptions C09_memory_sink.
    callback is invoked once and nothing stays allocated. *)
 Theorem C09_api_model_is_session : forall (C : Type) (cb : C -> bytes -> C * Z),
   (forall c p, snd (cb c p) <= Z.of_nat (length p)) ->
-  forall fc bs bibl c chunks c' res, session cb bs bibl c chunks = (c', res) ->
+  forall fm bs bibl c chunks c' res, session cb bs bibl c chunks = (c', res) ->
   exists a' results,
-    api_run cb fc bs (fst (api_open bibl ARCHIVE_OK false c))
+    api_run cb fm bs (fst (api_open bibl ARCHIVE_OK false c))
             (OHeader :: map OData chunks ++ [OClose; OFree]) = (a', results) /\
     map view results = ([], ARCHIVE_OK) :: res ++ [([], ARCHIVE_OK)] /\
     a_cb a' = c' /\ a_closer a' = 1%nat /\ a_leaked a' = false /\ a_state a' = SClosed.
@@ -210,32 +210,59 @@ Print Assumptions C09_api_model_is_session.
 (* close, then free: whatever came before (failed open or write callbacks, calls in the wrong
    state, state FATAL), the client filter's state and block buffer are released *)
 Theorem C09_close_then_free_no_leak : forall (C : Type) (cb : C -> bytes -> C * Z)
-    fc bs bibl oret fb c ops a' res,
+    fm bs bibl oret fb c ops a' res,
   ~ In OFree ops ->
-  api_run cb fc bs (fst (api_open bibl oret fb c)) (ops ++ [OClose; OFree]) = (a', res) ->
+  api_run cb fm bs (fst (api_open bibl oret fb c)) (ops ++ [OClose; OFree]) = (a', res) ->
   a_leaked a' = false.
 Proof. exact @close_then_free_no_leak. Qed.
 Print Assumptions C09_close_then_free_no_leak.
 
-(* FINDING (faithful model of archive_write.c:705 + archive_write_client_free).  [fc] says whether
-   archive_write_client_free releases a client filter that is still open; it is read from the
-   source on every run (Gen/WriteCore.v: client_free_closes_open_client; false for the pinned tree).
-   With fc = false, free WITHOUT a preceding close on a handle in state FATAL skips the close, so
-   the opened client filter is never closed: its state and block buffer stay allocated and the
-   client close callback is never called.  Witness: raw format, a second write_header (refused:
-   state FATAL), free.  With fc = true no call sequence whatsoever leaks. *)
-Theorem C09_free_releases_client_refuted :
+(* archive_write_free on a handle in state FATAL.  [fm : free_mode] is what _archive_write_free
+   does there; it is read from the source on every run (Gen/WriteCore.v, WriteCoreRun.v:
+   tree_free_mode) and is FreeClosesFilters for the current tree: free runs
+   __archive_write_filters_close, i.e. archive_write_client_close (pending padded block through the
+   write callback, client closer, release), and returns the worst status. *)
+Theorem C09_free_in_fatal_state_closes : forall (C : Type) (cb : C -> bytes -> C * Z) bs a,
+  a_state a = SFatal -> api_step cb FreeClosesFilters bs a OFree = api_close_core cb bs a.
+Proof. exact @free_in_fatal_is_close. Qed.
+Print Assumptions C09_free_in_fatal_state_closes.
+
+(* Whatever the callbacks did and whatever calls were made (failed writes, misuse, state FATAL,
+   with or without an explicit close): once the handle is freed nothing of the client filter stays
+   allocated, the filter is closed and the client close callback has been invoked exactly once -
+   for every free_mode except the snapshot's FreeSkips. *)
+Theorem C09_free_releases_client : forall (C : Type) (cb : C -> bytes -> C * Z) fm bs bibl fb c ops a' res,
+  fm <> FreeSkips ->
+  api_run cb fm bs (fst (api_open bibl ARCHIVE_OK fb c)) (ops ++ [OFree]) = (a', res) ->
+  a_leaked a' = false /\ a_fopen a' = false /\ a_closer a' = 1%nat.
+Proof. exact @free_releases_client. Qed.
+Print Assumptions C09_free_releases_client.
+
+Theorem C09_no_leak : forall (C : Type) (cb : C -> bytes -> C * Z) fm bs ops a a' res,
+  fm <> FreeSkips -> api_run cb fm bs a ops = (a', res) -> a_leaked a' = a_leaked a.
+Proof. exact @free_no_leak. Qed.
+Print Assumptions C09_no_leak.
+
+(* a callback that fails during free (state FATAL, pending block) makes free return ARCHIVE_FATAL:
+   raw, bs = 4, "\1\2", a second write_header (refused: state FATAL), free with a failing callback *)
+Example C09_free_reports_failure :
+  let '(a, res) := api_run plan_cb FreeClosesFilters 4 (fst (api_open (-1) ARCHIVE_OK false [Fail]))
+                           [OHeader; OData [1; 2]%N; OHeader; OFree] in
+  map (fun r => snd r) res = [ARCHIVE_OK; 2; ARCHIVE_FATAL; ARCHIVE_FATAL] /\
+  a_leaked a = false /\ a_closer a = 1%nat.
+Proof. vm_compute. repeat split. Qed.
+
+(* History (the pinned snapshot, FreeSkips; finding C09:free-in-fatal-state:client-not-closed, since
+   repaired in /repo): free WITHOUT a preceding close on a handle in state FATAL skipped the close, so
+   the opened client filter was never closed, its state and block buffer stayed allocated and the
+   client close callback was never called.  Witness: raw format, a second write_header, free. *)
+Theorem C09_free_skipping_close_leaked :
   exists bs ops,
-    let '(a, res) := api_run plan_cb false bs (fst (api_open (-1) ARCHIVE_OK false [])) ops in
+    let '(a, res) := api_run plan_cb FreeSkips bs (fst (api_open (-1) ARCHIVE_OK false [])) ops in
     last ops OClose = OFree /\ map (fun r => snd r) res = [ARCHIVE_OK; ARCHIVE_FATAL; ARCHIVE_OK] /\
     a_leaked a = true /\ a_closer a = 0%nat.
 Proof. exists 8%nat, [OHeader; OHeader; OFree]. vm_compute. repeat split. Qed.
-Print Assumptions C09_free_releases_client_refuted.
-
-Theorem C09_no_leak_if_client_free_closes : forall (C : Type) (cb : C -> bytes -> C * Z) bs ops a a' res,
-  api_run cb true bs a ops = (a', res) -> a_leaked a' = a_leaked a.
-Proof. exact @client_free_closes_no_leak. Qed.
-Print Assumptions C09_no_leak_if_client_free_closes.
+Print Assumptions C09_free_skipping_close_leaked.
 
 (* non-vacuity: a concrete run with short writes and a failure meets the hypotheses of (c)/(d), and
    a concrete accepting run shows full blocks and the padded last block *)
